@@ -53,8 +53,24 @@ def generate(rng, tier):
             if cfg["Merging"] is not None and rng.random() < 0.35:    # an earlier, different assignment of the options
                 cfg["Merging_first"] = {"Y": {"Scale": 1.7, "Offset": 0.3}, "Q[S(Q)-1]": {"Y": {"Scale": 0.6, "Offset": -0.2}}}
                 reassigned = True
-            cases.append({"cfg": cfg, "datasets": ds,
-                          "desc": {"shape": repr(shape), "n_datasets": k, "options_reassigned": reassigned}})
+            case = {"cfg": cfg, "datasets": ds, "desc": {"shape": repr(shape), "n_datasets": k, "options_reassigned": reassigned}}
+            idx = len(cases)
+            if idx % 4 == 1 and cfg["Merging"]:
+                # the option values arrive as numpy scalars of another width (np.float32 from single-precision data, np.int64 counts)
+                def quant(v):
+                    return {k_: quant(x_) for k_, x_ in v.items()} if isinstance(v, dict) else (round(float(v) * 4) / 4 or 0.25)
+                cfg["Merging"] = quant(cfg["Merging"])
+                if "Merging_first" in cfg:
+                    del cfg["Merging_first"]
+                    case["desc"]["options_reassigned"] = False
+                cfg["opt_types"] = "float32" if idx % 8 == 1 else "int64"
+                case["desc"]["option_value_types"] = cfg["opt_types"]
+            if idx % 4 == 3 and ds:
+                xs_all = sorted(v for d_ in ds for v in d_["x"])
+                if len(xs_all) >= 4:      # a window cutting into the stored points, set after they were added
+                    case["late_window"] = [round(xs_all[1], 2) + 0.001, round(xs_all[-2], 2) - 0.001]
+                    case["desc"]["late_window"] = True
+            cases.append(case)
     return cases
 
 
